@@ -22,8 +22,9 @@
      nothing ready = the thread parks (no observation); the notifier's `ch <- struct{}{}` hands the token
      to a parked owner directly (it wakes into `case <-ch:`), CANCEL wakes a parked thread into
      `case <-ctx.Done():`.
-   * checkCopy's compound condition reads/CASes `checker` up to three times in ONE Go statement; it is
-     ONE model step (first use: nil -> self).  Interleavings inside that statement are not modelled.
+   * checkCopy's compound condition touches `checker` up to three times in ONE Go statement (atomic load,
+     CAS nil -> self, atomic load; since commit 989ed9d all three are atomic); it is ONE model step
+     (first use: nil -> self).  Interleavings inside that statement are not modelled.
    * sync.Once: the first caller runs the body, a caller arriving meanwhile blocks (step not enabled).
    Definedness obligations (the model has no transition, the proofs show the case is unreachable):
    front() of an empty list (would return the sentinel: nil channel), remove of a node that is not
@@ -81,7 +82,7 @@ Inductive cpc :=
 | RM_1 (r : rmctx) (m : node) | RM_2 (r : rmctx) (m : node) | RM_3 (r : rmctx) (m : node)
 | RM_4 (r : rmctx) (m : node) | RM_5 (r : rmctx) (m : node).
 
-Inductive once_st := ONew | ORunning | ODone.
+Inductive once_st := ONew | ORunning (r : tid) | ODone.   (* ORunning r: thread r executes the body *)
 Inductive checker_st := CkNil | CkSelf | CkOther.   (* CkOther: this Cond value is a copy of a used one *)
 
 Record ccfg := {
@@ -225,8 +226,8 @@ Definition step_pc (c : ccfg) (t : tid) (o : nat) (p : cpc) : option stepout :=
   | FU_Once k =>
     match c_once c with
     | ODone => go c (after_firstuse k)
-    | ONew => go (set_once ORunning c) (FU_IfNil k)
-    | ORunning => None                                        (* blocks on the Once's mutex *)
+    | ONew => go (set_once (ORunning t) c) (FU_IfNil k)
+    | ORunning _ => None                                        (* blocks on the Once's mutex *)
     end
   | FU_IfNil k => if c_nl c then go (set_once ODone c) (after_firstuse k) else go c (FU_Assign k)
   | FU_Assign k => go c (NL_Ret k)
@@ -494,3 +495,115 @@ Definition ledger_rhs (c : ccfg) : Z :=
 
 (* run a schedule *)
 Definition cond_run (copied : bool) (evs : list cev) : option ccfg := exec cond_step (cond_init copied) evs.
+
+(* ---- classification of program counters (used by the statements of the theorems) ---- *)
+
+(* the thread holds l.mu *)
+Definition holds_mu (p : cpc) : bool :=
+  match p with
+  | AD_Defer | AD_Alloc | AL_Get | AL_New | AL_Ret _ | AD_Push _
+  | PB_1 _ | PB_2 _ | PB_3 _ | PB_4 _ | PB_5 _ | AD_Ret _ => true
+  | WT_DeferUnlock _ | WT_Select1 _ | WT_CaseTok _ | WT_IfLen _ | WT_Forward _ | WT_Default _
+  | WT_Remove _ | WT_RetErr _ => true
+  | LEN _ | FT_Ret _ | NO_Defer | NO_IfLen | NO_Ret | NO_Next | NA_Defer | NA_For | NA_Next => true
+  | NN_Front _ | NN_Ch _ _ | NN_Remove _ _ | NN_Send _ _ => true
+  | RM_1 _ _ | RM_2 _ _ | RM_3 _ _ | RM_4 _ _ | RM_5 _ _ => true
+  | _ => false
+  end.
+
+(* the thread is in the part of Wait that runs with the caller's lock c.L held *)
+Definition holds_L (p : cpc) : bool :=
+  match p with
+  | W_CheckCopy | W_FirstUse | W_Add | W_LUnlock _ => true
+  | CC_If InWait | CC_Panic InWait | FU_Once InWait | FU_IfNil InWait | FU_Assign InWait
+  | NL_Ret InWait | NC_1 InWait | NC_2 InWait | NC_3 InWait | NC_Ret InWait => true
+  | AD_Lock | AD_Defer | AD_Alloc | AL_Get | AL_New | AL_Ret _ | AD_Push _
+  | PB_1 _ | PB_2 _ | PB_3 _ | PB_4 _ | PB_5 _ | AD_Ret _ => true
+  | _ => false
+  end.
+
+(* life cycle of a waiter's node, as far as the owner's program counter determines it *)
+Inductive phase :=
+| PhPre        (* allocated, not yet linked *)
+| PhLinkMu     (* linked by pushBack, the owner still holds l.mu *)
+| PhAwait      (* the owner waits (or is on its way to / inside the time-out branch before its inner select) *)
+| PhSelf       (* time-out branch found the channel empty: the owner is about to unlink the node itself *)
+| PhQuiet.     (* the owner received its token, or unlinked the node: nothing may arrive any more *)
+
+Definition inlist_ph (ph : phase) : bool :=
+  match ph with PhLinkMu | PhAwait | PhSelf => true | _ => false end.
+
+Definition nodest (p : cpc) : option (node * phase) :=
+  match p with
+  | AL_Ret n | AD_Push n | PB_1 n | PB_2 n | PB_3 n => Some (n, PhPre)
+  | PB_4 n | PB_5 n | AD_Ret n => Some (n, PhLinkMu)
+  | W_LUnlock n | W_DeferLock n | W_RetWait n | WT_Ch n | WT_DeferFree n | WT_Select n | WT_Parked n
+  | WT_CaseCtx n | WT_Lock n | WT_DeferUnlock n | WT_Select1 n => Some (n, PhAwait)
+  | WT_Default n | WT_Remove n | RM_1 (RMWait n) _ => Some (n, PhSelf)
+  | WT_CaseTok n | WT_IfLen n | LEN (LenWait n) | WT_Forward n
+  | NN_Front (NNWait n) | FT_Ret (NNWait n) | NN_Ch (NNWait n) _ | NN_Remove (NNWait n) _ | NN_Send (NNWait n) _
+  | RM_1 (RMNext (NNWait n)) _ | RM_2 (RMNext (NNWait n)) _ | RM_3 (RMNext (NNWait n)) _
+  | RM_4 (RMNext (NNWait n)) _ | RM_5 (RMNext (NNWait n)) _
+  | RM_2 (RMWait n) _ | RM_3 (RMWait n) _ | RM_4 (RMWait n) _ | RM_5 (RMWait n) _
+  | WT_RetErr n | WT_CaseCh n | WT_RetNil n | FR_Put n _ => Some (n, PhQuiet)
+  | _ => None
+  end.
+
+Definition wnode (p : cpc) : option node :=
+  match nodest p with Some (n, _) => Some n | None => None end.
+
+(* a notifier has unlinked node f and has not yet sent on its channel *)
+Definition inflight (p : cpc) : option node :=
+  match p with
+  | RM_2 (RMNext _) m | RM_3 (RMNext _) m | RM_4 (RMNext _) m | RM_5 (RMNext _) m => Some m
+  | NN_Send _ f => Some f
+  | _ => None
+  end.
+
+(* where a notifier is with respect to the front of the list *)
+Inductive frontst := FNo | FNeed | FSel (f : node).
+Definition frontof (p : cpc) : frontst :=
+  match p with
+  | NO_Next | NA_Next | WT_Forward _ | NN_Front _ | FT_Ret _ => FNeed
+  | NN_Ch _ f | NN_Remove _ f | RM_1 (RMNext _) f => FSel f
+  | _ => FNo
+  end.
+
+(* the thread is in (or past) the `case <-ctx.Done():` branch of wait *)
+Definition in_ctx (p : cpc) : bool :=
+  match p with
+  | WT_CaseCtx _ | WT_Lock _ | WT_DeferUnlock _ | WT_Select1 _ | WT_CaseTok _ | WT_IfLen _ | WT_Forward _
+  | WT_Default _ | WT_Remove _ | WT_RetErr _ | FR_Put _ false => true
+  | LEN (LenWait _) | NN_Front (NNWait _) | FT_Ret (NNWait _) | NN_Ch (NNWait _) _ | NN_Remove (NNWait _) _
+  | NN_Send (NNWait _) _ => true
+  | RM_1 (RMNext (NNWait _)) _ | RM_2 (RMNext (NNWait _)) _ | RM_3 (RMNext (NNWait _)) _
+  | RM_4 (RMNext (NNWait _)) _ | RM_5 (RMNext (NNWait _)) _ => true
+  | RM_1 (RMWait _) _ | RM_2 (RMWait _) _ | RM_3 (RMWait _) _ | RM_4 (RMWait _) _ | RM_5 (RMWait _) _ => true
+  | _ => false
+  end.
+
+(* length of the forward list minus the size counter, while the holder of l.mu is inside pushBack / remove *)
+Definition delta (p : cpc) : Z :=
+  match p with
+  | PB_4 _ | PB_5 _ => 1
+  | RM_2 _ _ | RM_3 _ _ | RM_4 _ _ | RM_5 _ _ => -1
+  | _ => 0
+  end.
+
+(* the thread executes the body of once.Do *)
+Definition runs_once (p : cpc) : bool :=
+  match p with
+  | FU_IfNil _ | FU_Assign _ | NL_Ret _ | NC_1 _ | NC_2 _ | NC_3 _ | NC_Ret _ => true
+  | _ => false
+  end.
+
+(* checkFirstUse has returned in this call *)
+Definition past_fu (p : cpc) : bool :=
+  match p with
+  | W_CheckCopy | W_FirstUse | S_CheckCopy | S_FirstUse | B_CheckCopy | B_FirstUse
+  | CC_If _ | CC_Panic _ | FU_Once _ | FU_IfNil _ | FU_Assign _ | NL_Ret _ | NC_1 _ | NC_2 _ | NC_3 _ | NC_Ret _ => false
+  | _ => true
+  end.
+
+(* the thread is blocked inside the outer select *)
+Definition is_parked (p : cpc) : bool := match p with WT_Parked _ => true | _ => false end.
